@@ -22,7 +22,7 @@ inline const char *pk_key(int k) {
     static const char *n[] = {"await_pool", "pool_awaitable", "run_fn", "run_async", "run_detached", "resume_suspend_point", "current"};
     return n[k];
 }
-enum { PS_STOP_NONE = 0, PS_STOP_MAIN, PS_STOP_OTHER, PS_STOP_WORKER };
+enum { PS_STOP_NONE = 0, PS_STOP_MAIN, PS_STOP_OTHER, PS_STOP_WORKER, PS_STOP_TWO_THREADS, PS_STOP_WORKER_AND_MAIN, PS_NSTOP };
 
 struct pool_job {
     int kind = 0;
@@ -34,6 +34,7 @@ struct pool_job {
     std::atomic<int> submitted{0};
     std::atomic<int> outer_ran{0};
     bool throws = false; // run(fn) / run(async): the job ends with an exception, which must reach the returned future
+    int busy = 0;        // run_detached: the job keeps its worker busy for a while (a stop() arriving meanwhile blocks in join)
 };
 struct pool_round {
     cocls::thread_pool *pool = nullptr; // raw pointer: jobs still running while the pool is being destroyed must not see a changing owner object
@@ -45,6 +46,14 @@ struct pool_round {
     std::promise<void> worker_stop_done;
     std::atomic<int> worker_stop_started{0};
     std::atomic<int> stop_returned{0};
+    std::atomic<int> worker_stop_job{0}; // PS_STOP_WORKER_AND_MAIN: 0 submitted, 1 running, 2 its stop() returned, 3 dropped without running
+};
+struct worker_stop_guard { // the stop job of PS_STOP_WORKER_AND_MAIN may be cancelled by the competing stop(): then it is dropped
+    pool_round *X;
+    explicit worker_stop_guard(pool_round *x) : X(x) {}
+    worker_stop_guard(worker_stop_guard &&o) noexcept : X(o.X) { o.X = nullptr; }
+    worker_stop_guard(const worker_stop_guard &) = delete;
+    ~worker_stop_guard() { if (X) { int e = 0; X->worker_stop_job.compare_exchange_strong(e, 3, std::memory_order_relaxed); } }
 };
 // closure guard: counts destruction of the job closure (moved-from shells do not count)
 struct closure_guard {
@@ -113,6 +122,7 @@ inline void pool_submit(pool_round &X, pool_job &j) {
     case PK_RUN_DETACHED:
         P.run_detached([&X, &j, g = closure_guard(&j)]() {
             if (!is_current(*X.pool)) j.off_worker.fetch_add(1, std::memory_order_relaxed);
+            for (int i = 0; i < j.busy; i++) vf::cpu_relax();
             j.ran.fetch_add(1, std::memory_order_relaxed);
         });
         break;
@@ -138,8 +148,8 @@ inline void pool_mt(const vf::opts &o, vf::report &R, vf::team &T, uint64_t roun
         pool_round &X = *Xp;
         int nworkers = 1 + (int)r.below(3);
         X.nsub = 1 + (int)r.below((uint32_t)std::min(2, T.n - 1));
-        X.stop_mode = (int)r.below(4);
-        if (X.stop_mode == PS_STOP_OTHER && X.nsub + 1 >= T.n) X.stop_mode = PS_STOP_MAIN;
+        X.stop_mode = (int)r.below(PS_NSTOP);
+        if ((X.stop_mode == PS_STOP_OTHER || X.stop_mode == PS_STOP_TWO_THREADS) && X.nsub + 1 >= T.n) X.stop_mode = PS_STOP_MAIN;
         X.stop_delay = (int)r.below(r.chance(1, 3) ? 400 : (r.chance(1, 2) ? 4000 : 20000));
         std::string desc = "workers=" + std::to_string(nworkers) + " stop=" + std::to_string(X.stop_mode) + " ";
         for (int s = 0; s < X.nsub; s++) {
@@ -149,6 +159,7 @@ inline void pool_mt(const vf::opts &o, vf::report &R, vf::team &T, uint64_t roun
                 pool_job &j = X.jobs[s][i];
                 j.kind = (int)r.below(PK_NKINDS);
                 j.throws = (j.kind == PK_RUN_FN || j.kind == PK_RUN_ASYNC) && r.chance(1, 4);
+                if (j.kind == PK_RUN_DETACHED && r.chance(1, 2)) j.busy = 2000 + (int)r.below(60000);
                 if (j.kind == PK_AWAIT_POOL_AWT || j.kind == PK_RESUME_SP) { j.gate = std::make_unique<cocls::future<void>>(); j.gate_prom.emplace(j.gate->get_promise()); }
                 desc += std::string(pk_name(j.kind)) + (j.throws ? " throwing, " : ", ");
             }
@@ -166,10 +177,23 @@ inline void pool_mt(const vf::opts &o, vf::report &R, vf::team &T, uint64_t roun
             if (tid >= 1 && tid <= X.nsub) {
                 int s = tid - 1;
                 for (int i = 0; i < X.njobs[s]; i++) pool_submit(X, X.jobs[s][i]);
-            } else if ((tid == 0 && X.stop_mode == PS_STOP_MAIN) || (tid == X.nsub + 1 && X.stop_mode == PS_STOP_OTHER)) {
-                for (int i = 0; i < X.stop_delay; i++) vf::cpu_relax();
+            } else if ((tid == 0 && (X.stop_mode == PS_STOP_MAIN || X.stop_mode == PS_STOP_TWO_THREADS)) || (tid == X.nsub + 1 && (X.stop_mode == PS_STOP_OTHER || X.stop_mode == PS_STOP_TWO_THREADS))) {
+                // PS_STOP_TWO_THREADS: two ordinary threads call stop() at (almost) the same time
+                for (int i = 0; i < X.stop_delay + (tid ? 40 : 0); i++) vf::cpu_relax();
                 X.pool->stop();
-                X.stop_returned.store(1, std::memory_order_relaxed);
+                X.stop_returned.fetch_add(1, std::memory_order_relaxed);
+            } else if (tid == 0 && X.stop_mode == PS_STOP_WORKER_AND_MAIN) {
+                // stop() from one of the pool's own threads overlapping with stop() from an ordinary thread
+                for (int i = 0; i < X.stop_delay; i++) vf::cpu_relax();
+                X.pool->run_detached([&X, g = worker_stop_guard(&X)] {
+                    int e = 0;
+                    if (!X.worker_stop_job.compare_exchange_strong(e, 1, std::memory_order_relaxed)) return;
+                    X.pool->stop();
+                    X.worker_stop_job.store(2, std::memory_order_relaxed);
+                });
+                for (int i = 0; i < (int)(rseed % 3000); i++) vf::cpu_relax();
+                X.pool->stop();
+                X.stop_returned.fetch_add(1, std::memory_order_relaxed);
             } else if (tid == 0 && X.stop_mode == PS_STOP_WORKER) {
                 for (int i = 0; i < X.stop_delay; i++) vf::cpu_relax();
                 X.pool->run_detached([&X] {
@@ -184,6 +208,10 @@ inline void pool_mt(const vf::opts &o, vf::report &R, vf::team &T, uint64_t roun
         if (X.stop_mode == PS_STOP_WORKER) {
             // the stop job itself may have been rejected/cancelled if ... it cannot: nobody else stops the pool in this mode
             X.worker_stop_done.get_future().wait();
+        }
+        if (X.stop_mode == PS_STOP_WORKER_AND_MAIN) { // the worker's stop() must return as well (or its job was dropped by the other stop())
+            unsigned spins = 0;
+            while (X.worker_stop_job.load(std::memory_order_relaxed) < 2) { if (++spins < 4000) vf::cpu_relax(); else usleep(200); }
         }
         // stop() has returned and every submission call has returned: each job must be settled NOW, while the pool object is still
         // alive - work parked in a dead pool until its destructor runs is "forgotten with a waiter left hanging"
@@ -248,7 +276,7 @@ inline void pool_mt(const vf::opts &o, vf::report &R, vf::team &T, uint64_t roun
         std::string sig = desc + " r" + std::to_string(nran) + "c" + std::to_string(ncancel);
         R.sig(sig, nontrivial);
         R.cls("jobs_executed", (uint64_t)nran); R.cls("jobs_cancelled", (uint64_t)ncancel);
-        R.cls(std::string("stop_origin_") + (X.stop_mode == 0 ? "destructor_only" : X.stop_mode == 1 ? "coordinator" : X.stop_mode == 2 ? "second_thread" : "pool_worker"));
+        R.cls(std::string("stop_origin_") + (X.stop_mode == 0 ? "destructor_only" : X.stop_mode == 1 ? "coordinator" : X.stop_mode == 2 ? "second_thread" : X.stop_mode == 3 ? "pool_worker" : X.stop_mode == 4 ? "two_threads_at_once" : "pool_worker_and_thread_at_once"));
         if (ncancel && nran) R.cls("rounds_with_both_executed_and_cancelled");
         if (T.stalls_fired_last_round()) R.cls("rounds_with_stall_fired");
         if (R.samples.size() < 3 && ncancel && nran) R.sample(witness());
